@@ -29,8 +29,18 @@ inline int g_user = 0;
   int mI1(int) { ++g_calls; return 3; }             \
   int mI2(int, int) { ++g_calls; return 3; }
 
-// trackable directly
-struct TD : sigc::trackable
+// trackable directly; its methods are INHERITED from a non-trackable base, some of its methods (b*) are INHERITED from a non-trackable base, so that &TD::bV0 has type
+// void (MB::*)(): mem_fun must decide tracking from the class of the bound object, not of the method
+struct MB
+{
+  void bV0() { ++g_calls; }
+  void bV1(int) { ++g_calls; }
+  void bV2(int, int) { ++g_calls; }
+  int bI0() { ++g_calls; return 3; }
+  int bI1(int) { ++g_calls; return 3; }
+  int bI2(int, int) { ++g_calls; return 3; }
+};
+struct TD : MB, sigc::trackable
 {
   long pad = 1;
   VS_METHODS
